@@ -169,7 +169,10 @@ def evaluator_part(chk, tier, seed, programs):
     cases, meta = [], []
     for name, src in programs:
         for s in (light if (tier == "quick" and name.startswith(("gen:", "inh:"))) else sch):
-            c = {"k": "eval", "src_bytes": list(src), "gc": s, "counts": True, "max_stack": 200}
+            c = {"k": "eval", "src_bytes": list(src), "gc": s, "counts": True,
+                 "max_stack": 1000000 if name.startswith("gen:deep") else 200}
+            if name.startswith("gen:deep") and s.get("mode") == "period" and s.get("period", 9) < 50:
+                c["gc"] = {"mode": "period", "period": 997, "phase": s.get("phase", 0)}   # every-step collection of 10^5 objects is quadratic
             cases.append(c)
             meta.append((name, s))
     results = run_cases(cases, "c03_sched", timeout_ms=60000)
@@ -234,6 +237,11 @@ def run(tier, seed):
     finally:
         c02.QUICK_SAMPLE.clear(); c02.QUICK_SAMPLE.update(saved)
     progs += [(f"gen:{sl}:{i}", src.encode()) for i, (sl, src, _) in enumerate(gen)]
+    # deep live structures while collections run (the mark phase must not depend on their depth)
+    for d in ((3000, 20000) if tier == "quick" else (3000, 20000, 100000)):
+        progs.append((f"gen:deeplist:{d}", (f"local l = std.foldl(function(acc, i) {{ next: acc, v: i }}, std.range(1, {d}), null); "
+                                            f"local len(n, k) = if n == null then k else len(n.next, k + 1) tailstrict; len(l, 0)").encode()))
+        progs.append((f"gen:deeparr:{d}", f"local a = std.foldl(function(acc, i) [acc], std.range(1, {d}), 0); std.length(a)".encode()))
     inh = c07.gen(chk, "large", "identity", 0, seed) + c07.gen(chk, "small", "triples", 120 if tier == "quick" else 1500, seed)
     progs += [(f"inh:{i}", ("local o = " + c["srcs"][-1] + "; [o, o + {}, std.objectFields(o)]").encode()) for i, c in enumerate(inh)]
     evaluator_part(chk, tier, seed, progs)
